@@ -141,6 +141,10 @@ def sweep(ctx, rule):
                 want = ("RawToken{dst_line:cast<u32>(Add(cast<i32>(%s.0),%s)),dst_col:cast<u32>(Add(cast<i32>(%s.1),%s)),src_line:O.value.src_line,src_col:O.value.src_col,"
                         "src_id:O.value.src_id,name_id:O.value.name_id,is_range:O.value.is_range}") % (MAXS, dl, MAXS, dc)
                 ok_d = ok_d or got == want
+                # (operands of the commutative `+` print in sorted order: with the displacement a bare `Sub(..)` it comes first)
+                want2 = ("RawToken{dst_line:cast<u32>(Add(%s,cast<i32>(%s.0))),dst_col:cast<u32>(Add(%s,cast<i32>(%s.1))),src_line:O.value.src_line,src_col:O.value.src_col,"
+                         "src_id:O.value.src_id,name_id:O.value.name_id,is_range:O.value.is_range}") % (dl, MAXS, dc, MAXS)
+                ok_d = ok_d or got == want2
         ctx.check(ok_d, rule, fn, "token:fields", "the token sits at the start of the overlap (max of the two starts) moved by the adjustment token's generated-minus-original displacement and takes source, original position, name and range flag from the original token", detail=got[:500])
         return
     defs = [(sh, site) for sh, site, _ in q.def_shapes(b, inv["T"], roles)]
@@ -154,8 +158,8 @@ def sweep(ctx, rule):
             shifts[s["place"]["p"][-1].get("n")] = q.shape(b.expr_of_rvalue(s["rv"]), roles)
     DL = "Sub(cast<i32>(A.value.dst_line),cast<i32>(A.value.src_line))"
     DC = "Sub(cast<i32>(A.value.dst_col),cast<i32>(A.value.src_col))"
-    ok_l = shifts.get("dst_line") in ("cast<u32>(Add(cast<i32>(T.dst_line),tuple(%s,%s).0))" % (DL, DC), "cast<u32>(Add(cast<i32>(T.dst_line),%s))" % DL)
-    ok_c = shifts.get("dst_col") in ("cast<u32>(Add(cast<i32>(T.dst_col),tuple(%s,%s).1))" % (DL, DC), "cast<u32>(Add(cast<i32>(T.dst_col),%s))" % DC)
+    ok_l = shifts.get("dst_line") in ("cast<u32>(Add(cast<i32>(T.dst_line),tuple(%s,%s).0))" % (DL, DC), "cast<u32>(Add(cast<i32>(T.dst_line),%s))" % DL, "cast<u32>(Add(%s,cast<i32>(T.dst_line)))" % DL)
+    ok_c = shifts.get("dst_col") in ("cast<u32>(Add(cast<i32>(T.dst_col),tuple(%s,%s).1))" % (DL, DC), "cast<u32>(Add(cast<i32>(T.dst_col),%s))" % DC, "cast<u32>(Add(%s,cast<i32>(T.dst_col)))" % DC)
     ctx.check(ok_l and ok_c and set(shifts) == {"dst_line", "dst_col"}, rule, fn, "token:displacement",
               "the position is moved by the adjustment token's generated-minus-original displacement (line and column, not swapped, sign not flipped)", detail=str(shifts)[:500])
 
